@@ -13,9 +13,13 @@ open DoltVerif.VcsOps
 
 /-! ### the merge laws -/
 
-/-- ours = base ⇒ the merge is theirs (for every well-formed theirs, any base, both merge modes) -/
-theorem merge_base_ours (c : Bool) (b x : Root) (hx : RootWF x) : merge3 c b b x = .ok x :=
-  merge3_base_ours c b x hx
+/-- ours = base ⇒ the merge is theirs: for every well-formed theirs and any base; in cherry-pick mode
+(no table-level fast-forward, the schema merge can only append columns) provided theirs' new columns
+come after the surviving ones (`ColsAppend`) — see `cherry_pick_onto_own_parent_full_false`. -/
+theorem merge_base_ours (c : Bool) (b x : Root) (hx : RootWF x)
+    (hcols : c = true → ∀ n bt xt, get b n = some bt → get x n = some xt → ColsAppend bt.cols xt.cols) :
+    merge3 c b b x = .ok x :=
+  merge3_base_ours c b x hx hcols
 
 /-- theirs = base ⇒ the merge is ours -/
 theorem merge_base_theirs (c : Bool) (b x : Root) (hx : Sorted ltStr (keys x)) : merge3 c b x b = .ok x :=
@@ -116,7 +120,8 @@ theorem cherry_pick_def (d d' : Db) (r : Ref) (h : d.cherryPick r = (.ok, d')) :
 cherry-picking `C` succeeds and reproduces exactly `C`'s data. -/
 theorem cherry_pick_onto_own_parent (d : Db) (hd : d.WF) (c p : Nat) (cm : Commit)
     (hcm : d.commit? c = some cm) (hp : cm.parents = [p]) (hhead : d.headId = p)
-    (hclean : d.clean = true) (hmerge : d.ws.merge = none) (hne : cm.root ≠ d.rootOf p) :
+    (hclean : d.clean = true) (hmerge : d.ws.merge = none) (hne : cm.root ≠ d.rootOf p)
+    (hcols : ∀ n bt xt, get (d.rootOf p) n = some bt → get cm.root n = some xt → ColsAppend bt.cols xt.cols) :
     ∃ d', d.cherryPick ⟨.commit c, 0⟩ = (.ok, d') ∧ d'.headRoot = cm.root ∧
       d'.ws.working = cm.root ∧ d'.ws.staged = cm.root := by
   have hc : d.ws.staged = d.headRoot ∧ d.ws.working = d.headRoot := by simpa [Db.clean] using hclean
@@ -129,7 +134,7 @@ theorem cherry_pick_onto_own_parent (d : Db) (hd : d.WF) (c p : Nat) (cm : Commi
   have hcr : d.cherryRoot c = .ok cm.root := by
     unfold Db.cherryRoot
     simp only [hclean, hcm, hp, hne, if_false, Bool.not_true, Bool.false_eq_true, cherryPickIsCherry]
-    rw [hc.2, hhr, merge3_base_ours true (d.rootOf p) cm.root hroot]
+    rw [hc.2, hhr, merge3_base_ours true (d.rootOf p) cm.root hroot (fun _ => hcols)]
   have hne' : ¬ cm.root = d.headRoot := by rw [hhr]; exact hne
   refine ⟨(((d.addCommit [d.headId] cm.root cm.msg).1.setHead (d.addCommit [d.headId] cm.root cm.msg).2).setWs
     ⟨cm.root, cm.root, none⟩), ?_, ?_, ?_, ?_⟩
@@ -138,6 +143,28 @@ theorem cherry_pick_onto_own_parent (d : Db) (hd : d.WF) (c p : Nat) (cm : Commi
   · simp [Db.headRoot, rootOf_addCommit_new]
   · simp
   · simp
+
+/-- the property's wording without the column-order proviso -/
+def cherry_pick_onto_own_parent_full : Prop :=
+  ∀ (d : Db) (c p : Nat) (cm : Commit), d.WF → d.commit? c = some cm → cm.parents = [p] → d.headId = p →
+    d.clean = true → d.ws.merge = none → cm.root ≠ d.rootOf p →
+    ∃ d', d.cherryPick ⟨.commit c, 0⟩ = (.ok, d') ∧ d'.headRoot = cm.root
+
+/-- … is false: when the commit added a column that does not sit at the end of its column list (it was
+created by a table-level fast-forward, e.g. a revert that restored a dropped column), cherry-picking
+it onto its own parent appends that column instead (dolt replay in design/C31.md). -/
+theorem cherry_pick_onto_own_parent_full_false : ¬ cherry_pick_onto_own_parent_full := by
+  intro h
+  let r1 : Root := [("u", ⟨[⟨"c2", .int⟩], [(1, [.int 2])]⟩)]
+  let r2 : Root := [("u", ⟨[⟨"c1", .str⟩, ⟨"c2", .int⟩], [(1, [.null, .int 2])]⟩)]
+  let d : Db :=
+    { commits := [⟨[], [], "init", 1⟩, ⟨[0], r1, "c1", 2⟩, ⟨[1], r2, "c2", 3⟩]
+      branches := [("main", 1)], tags := [], wss := [("main", ⟨r1, r1, none⟩)], cur := "main", stashes := [] }
+  obtain ⟨d', h1, h2⟩ := h d 2 1 ⟨[1], r2, "c2", 3⟩ (Db.wf_of_wfb d (by decide +kernel)) rfl rfl (by decide +kernel)
+    (by decide +kernel) rfl (by decide +kernel)
+  have h3 : (d.cherryPick ⟨.commit 2, 0⟩).2.headRoot ≠ r2 := by decide +kernel
+  rw [h1] at h3
+  exact h3 h2
 
 /-! ### revert -/
 
@@ -216,7 +243,7 @@ theorem revert_latest (d : Db) (hd : d.WF) (hc : Commit) (p : Nat) (rest : List 
     simp [Db.revertBlocked, hcl.1, hcl.2, changedTables_self]
   have hwfp : RootWF (d.rootOf p) := rootWF_rootOf d hd p
   have hmerge : merge3 false hc.root d.ws.working (d.rootOf p) = .ok (d.rootOf p) := by
-    rw [hcl.2, hhr]; exact merge3_base_ours false hc.root (d.rootOf p) hwfp
+    rw [hcl.2, hhr]; exact merge3_base_ours false hc.root (d.rootOf p) hwfp (fun h => by cases h)
   have hsh : Sorted ltStr (keys d.headRoot) := (rootWF_rootOf d hd d.headId).1
   have hstaged : moveTables (changedTables d.ws.working (d.rootOf p)) (d.rootOf p) d.ws.staged = d.rootOf p := by
     rw [hcl.1, hcl.2]; exact moveTables_changed d.headRoot (d.rootOf p) hsh hwfp.1
